@@ -48,7 +48,7 @@ type OpenCall struct {
 	Opts       LogsOpts `json:"opts"`
 	ReleaseOrd int      `json:"release_ord"` // global ordinal of the release, -1 if never released
 	Err        string   `json:"err,omitempty"`
-	Stream     int      `json:"stream"` // index into Streams, -1 if none
+	Stream     int      `json:"stream"`          // index into Streams, -1 if none
 	Phase      int      `json:"phase,omitempty"` // harness-defined phase (e.g. an earlier selection through the same querier)
 
 	key int // deterministic order key: position in the inventory, then open index
